@@ -7,8 +7,10 @@ import (
 	"net"
 	"os"
 	"path/filepath"
+	"runtime"
 	"strings"
 	"sync"
+	"syscall"
 	"time"
 
 	"github.com/rminnich/go9p"
@@ -104,6 +106,14 @@ func c06Cases(tier string, seed int64) []core.Case {
 			cases = append(cases, core.Case{ID: fmt.Sprintf("fresh-users/%s/dotu=%v", server, dotu), Run: func(ctx *core.Ctx) core.Result {
 				return c06FreshUsers(ctx, server, dotu)
 			}})
+			cases = append(cases, core.Case{ID: fmt.Sprintf("hangup-with-binding-request-in-flight/%s/dotu=%v", server, dotu), Run: func(ctx *core.Ctx) core.Result {
+				return c06HangupWhileBinding(ctx, server, dotu, map[string]int{"quick": 1500, "thorough": 30000}[tier])
+			}})
+			if server == "ufs" {
+				cases = append(cases, core.Case{ID: fmt.Sprintf("flush-of-waiting-request/ufs/dotu=%v", dotu), Run: func(ctx *core.Ctx) core.Result {
+					return c06UfsFlushWaiting(ctx, dotu)
+				}})
+			}
 			cases = append(cases, core.Case{ID: fmt.Sprintf("cancelled-unstarted/%s/dotu=%v", server, dotu), Run: func(ctx *core.Ctx) core.Result {
 				return c06CancelledUnstarted(ctx, server, dotu)
 			}})
@@ -1258,5 +1268,177 @@ func c06FreshUsers(ctx *core.Ctx, server string, dotu bool) core.Result {
 		res.Sig(fmt.Sprintf("%s|%v|fresh-users|%d", server, dotu, round))
 		h.check(what, "fresh-users")
 	}
+	return res
+}
+
+// c06UfsFlushWaiting: the Unix file server has requests that take as long as the host lets them: an open of a named
+// pipe waits for the other end and keeps its fid busy; every other request on that fid waits behind it. A client
+// flushes such a waiting (or blocked) request, then lets the pipe's other end appear. Whatever the server answers,
+// it survives and keeps serving the bystander and new connections.
+func c06UfsFlushWaiting(ctx *core.Ctx, dotu bool) core.Result {
+	var res core.Result
+	h := newHostile(ctx, &res, "ufs", dotu)
+	if h == nil {
+		return res
+	}
+	defer h.done()
+	kinds := []string{"walk-clone", "walk-name", "walk-inplace", "read", "stat", "open", "wstat", "clunk", "remove", "create", "the-open-itself"}
+	for round, kind := range kinds {
+		ctx.Beat()
+		h.repair()
+		fifo := filepath.Join(h.root, fmt.Sprintf("pipe-%d", round))
+		_ = os.Remove(fifo)
+		if err := syscall.Mkfifo(fifo, 0o600); err != nil {
+			res.Inconclusive = "c06 flush: mkfifo: " + err.Error()
+			return res
+		}
+		c := h.s.Dial()
+		if !h.setup(c, 8192) {
+			res.Inconclusive = "c06 flush: setup failed"
+			return res
+		}
+		target := []string{filepath.Base(fifo)}
+		if kind == "read" || kind == "create" {
+			// the fid of the blocked open is a directory for these: a directory listing, a create in it — the busy fid is
+			// then the pipe's, reached through a create of a hard link that names it
+			target = []string{filepath.Base(fifo)}
+		}
+		if !h.okRpc(c, &wire.Msg{Type: wire.Twalk, Tag: 10, Fid: 0, Newfid: 40, Wname: target}) {
+			res.Inconclusive = "c06 flush: walk to the pipe failed"
+			return res
+		}
+		_ = c.Send(&wire.Msg{Type: wire.Topen, Tag: 11, Fid: 40, Mode: 0})
+		stackBuf := make([]byte, 2<<20)
+		inOpen := waitFor(W, func() bool {
+			n := runtime.Stack(stackBuf, true)
+			for _, g := range strings.Split(string(stackBuf[:n]), "\n\n") {
+				if strings.Contains(g, "(*Ufs).Open") && strings.Contains(g, "syscall.") {
+					return true
+				}
+			}
+			return false
+		})
+		if !inOpen {
+			res.Count("open_blocked_not_arranged", 1)
+		}
+		var m *wire.Msg
+		switch kind {
+		case "walk-clone":
+			m = &wire.Msg{Type: wire.Twalk, Fid: 40, Newfid: 41}
+		case "walk-name":
+			m = &wire.Msg{Type: wire.Twalk, Fid: 40, Newfid: 41, Wname: []string{"x"}}
+		case "walk-inplace":
+			m = &wire.Msg{Type: wire.Twalk, Fid: 40, Newfid: 40}
+		case "read":
+			m = &wire.Msg{Type: wire.Tread, Fid: 40, Offset: 0, Count: 100}
+		case "stat":
+			m = &wire.Msg{Type: wire.Tstat, Fid: 40}
+		case "open":
+			m = &wire.Msg{Type: wire.Topen, Fid: 40, Mode: 0}
+		case "wstat":
+			st := wire.Stat{Type: 0xFFFF, Dev: 0xFFFFFFFF, Mode: 0o600, Atime: 0xFFFFFFFF, Mtime: 0xFFFFFFFF, Length: 0xFFFFFFFFFFFFFFFF, Nuid: wire.NOUID, Ngid: wire.NOUID, Nmuid: wire.NOUID}
+			m = &wire.Msg{Type: wire.Twstat, Fid: 40, Stat: st}
+		case "clunk":
+			m = &wire.Msg{Type: wire.Tclunk, Fid: 40}
+		case "remove":
+			m = &wire.Msg{Type: wire.Tremove, Fid: 40}
+		case "create":
+			// a hard link to the busy fid, made in the root directory through a clone of it
+			if !h.okRpc(c, &wire.Msg{Type: wire.Twalk, Tag: 12, Fid: 0, Newfid: 42}) {
+				res.Inconclusive = "c06 flush: clone failed"
+				return res
+			}
+			m = &wire.Msg{Type: wire.Tcreate, Fid: 42, Name: fmt.Sprintf("lnk-%d", round), Perm: 0x01000000 | 0o644, Mode: 0, Ext: "40"}
+		case "the-open-itself":
+			m = nil
+		}
+		flushed := uint16(11)
+		if m != nil {
+			m.Tag = 20
+			flushed = 20
+			_ = c.Send(m)
+			h.s.Ctl.WaitPassed("process.marked", 0, 20, 1, 2*time.Second)
+			time.Sleep(2 * time.Millisecond)
+		}
+		_ = c.Send(&wire.Msg{Type: wire.Tflush, Tag: 21, Oldtag: flushed})
+		// the flush is taken up (answered at once by a server that cancels, when the request is done otherwise)
+		h.s.Ctl.WaitPassed("flush.decided", 0, 21, 1, 2*time.Second)
+		time.Sleep(2 * time.Millisecond)
+		// the other end of the pipe
+		var wr *os.File
+		waitFor(W, func() bool {
+			f, err := os.OpenFile(fifo, os.O_WRONLY|syscall.O_NONBLOCK, 0)
+			wr = f
+			return err == nil
+		})
+		// (the writing end stays open until the connection is quiet: a second open of the pipe would wait for it again)
+		if _, err := c.WaitTag(21, W); err != nil {
+			res.Count("rflush_not_seen", 1)
+		}
+		c.Quiesce(W)
+		if wr != nil {
+			_ = wr.Close()
+		}
+		// a few more requests on the connection whose request was cancelled, then it goes
+		_, _ = c.Rpc(&wire.Msg{Type: wire.Tstat, Tag: 30, Fid: 0}, W)
+		_, _ = c.Rpc(&wire.Msg{Type: wire.Tstat, Tag: 31, Fid: 40}, W)
+		_, _ = c.Rpc(&wire.Msg{Type: wire.Tclunk, Tag: 32, Fid: 41}, W)
+		c.Hangup()
+		_ = os.Remove(fifo)
+		_ = os.Remove(filepath.Join(h.root, fmt.Sprintf("lnk-%d", round)))
+		h.check(fmt.Sprintf("Topen of a named pipe blocked, %s behind it on the same fid, Tflush of tag %d, then the pipe's other end opens", kind, flushed), "ufs-flush-waiting;"+kind)
+		res.Sig(fmt.Sprintf("ufs-flush-waiting|%v|%s|%v", dotu, kind, inOpen))
+		if len(res.Violations) > 0 {
+			break
+		}
+	}
+	res.Sample(map[string]interface{}{"scenario": "Tflush of a request waiting behind (or blocked in) an open of a named pipe, Unix file server", "dotu": dotu})
+	return res
+}
+
+// c06HangupWhileBinding: many short connections that send a request binding a new fid (Twalk to a new fid, Tattach,
+// Tauth) and hang up without waiting: the request is executing, or about to, while the server tears the connection
+// down (defect d393b8f was a crash in exactly this window; it needs the two to meet within a few instructions, so
+// this case is exploration by repetition).
+func c06HangupWhileBinding(ctx *core.Ctx, server string, dotu bool, rounds int) core.Result {
+	var res core.Result
+	h := newHostile(ctx, &res, server, dotu)
+	if h == nil {
+		return res
+	}
+	defer h.done()
+	for round := 0; round < rounds && len(res.Violations) == 0; round++ {
+		if round%100 == 0 {
+			ctx.Beat()
+			h.repair()
+		}
+		c := h.s.Dial()
+		r, err := c.Version(8192, h.ver(), W)
+		if err != nil || r.Msg == nil || !h.okRpc(c, &wire.Msg{Type: wire.Tattach, Tag: 1, Fid: 0, Afid: wire.NOFID, Uname: "root", Nuname: 0}) {
+			res.Inconclusive = "c06 hangup: setup failed"
+			return res
+		}
+		var ms []*wire.Msg
+		switch round % 4 {
+		case 0:
+			ms = []*wire.Msg{{Type: wire.Twalk, Tag: 2, Fid: 0, Newfid: 5, Wname: []string{"sub"}}}
+		case 1:
+			ms = []*wire.Msg{{Type: wire.Twalk, Tag: 2, Fid: 0, Newfid: 5}, {Type: wire.Twalk, Tag: 3, Fid: 0, Newfid: 6, Wname: []string{"sub", "inner.txt"}}}
+		case 2:
+			ms = []*wire.Msg{{Type: wire.Tattach, Tag: 2, Fid: 7, Afid: wire.NOFID, Uname: "root", Nuname: 0}}
+		case 3:
+			ms = []*wire.Msg{{Type: wire.Twalk, Tag: 2, Fid: 0, Newfid: 5, Wname: []string{"sub"}}, {Type: wire.Tstat, Tag: 3, Fid: 5}, {Type: wire.Topen, Tag: 4, Fid: 5, Mode: 0}}
+		}
+		_ = c.Send(ms...)
+		c.Hangup()
+		if round%50 == 49 {
+			h.check("a request binding a new fid, then an immediate hang-up", "hangup-while-binding")
+		}
+	}
+	h.check("a request binding a new fid, then an immediate hang-up", "hangup-while-binding")
+	res.Evals += rounds
+	res.Count("hangups_with_a_binding_request_in_flight", int64(rounds))
+	res.Sig(fmt.Sprintf("hangup-while-binding|%s|%v", server, dotu))
+	res.Sample(map[string]interface{}{"scenario": "Twalk to a new fid / Tattach, immediate hang-up", "server": server, "rounds": rounds})
 	return res
 }
